@@ -204,31 +204,10 @@ func init() {
 			c.set(TupleV{IfaceV{typ: e.ctxType(), val: PtrV{id, -1}}, NativeFn{name: "ctxCancel", data: ch}})
 			return true
 		},
-		// io.Copy between two connections: modelled as ending at once (the piping itself is outside the claim)
-		"io.Copy": func(e *Engine, c *callCtx) bool {
-			if c.st.ghost == nil {
-				c.st.ghost = map[string]Value{}
-			}
-			n, _ := c.st.ghost["io_copy_calls"].(IntV)
-			if n.t == nil {
-				n = e.goInt(0)
-			}
-			c.st.ghost["io_copy_calls"] = e.ibin(token.ADD, n, e.goInt(1))
-			c.set(TupleV{e.freshInt(c.st, "copied", 64, true), IfaceV{}})
-			return true
-		},
-		"io.CopyBuffer": func(e *Engine, c *callCtx) bool {
-			if c.st.ghost == nil {
-				c.st.ghost = map[string]Value{}
-			}
-			n, _ := c.st.ghost["io_copy_calls"].(IntV)
-			if n.t == nil {
-				n = e.goInt(0)
-			}
-			c.st.ghost["io_copy_calls"] = e.ibin(token.ADD, n, e.goInt(1))
-			c.set(TupleV{e.freshInt(c.st, "copied", 64, true), IfaceV{}})
-			return true
-		},
+		// io.Copy / io.CopyBuffer: the real loop of package io is executed (fakes decide what Read/Write do);
+		// the ghost counter lets harnesses state how many copy directions were started.
+		"io.Copy":            stubIOCopy,
+		"io.CopyBuffer":      stubIOCopy,
 		"context.TODO":       func(e *Engine, c *callCtx) bool { c.set(IfaceV{}); return true },
 		"context.Background": func(e *Engine, c *callCtx) bool { c.set(IfaceV{}); return true },
 		"strconv.Itoa":       stubItoa,
@@ -1202,4 +1181,21 @@ func stubAddrPort(e *Engine, c *callCtx) bool {
 	res.f = []Value{addr, pt}
 	c.set(res)
 	return true
+}
+
+func stubIOCopy(e *Engine, c *callCtx) bool {
+	if c.st.ghost == nil {
+		c.st.ghost = map[string]Value{}
+	}
+	n, _ := c.st.ghost["io_copy_calls"].(IntV)
+	if n.t == nil {
+		n = e.goInt(0)
+	}
+	c.st.ghost["io_copy_calls"] = e.ibin(token.ADD, n, e.goInt(1))
+	if c.callee.Blocks == nil {
+		panic(hardErr("no SSA for " + c.name))
+	}
+	e.sawFunc(c.name)
+	e.pushFrame(c.st, c.callee, c.args, nil, c.res)
+	return false
 }
